@@ -33,3 +33,20 @@ package ast
 // @   ensures[C07] lit: !(typeIs(e, "*ast.BinaryExpr") || typeIs(e, "*ast.UnaryExpr") || typeIs(e, "*ast.IndexExpr") || typeIs(e, "*ast.SelectorExpr") || typeIs(e, "*ast.InExpr") || typeIs(e, "*ast.IsNullExpr") || typeIs(e, "*ast.IsBoolExpr") || typeIs(e, "*ast.BetweenExpr")) ==> result == 0
 // @   panics never
 // @   modifies nothing
+
+// ghost printer precedence of expression nodes (0 = primary expression for every other Expr type)
+// @ ghostdef prec ast.BinaryExpr binPrec(self.Op)
+// @ ghostdef prec ast.UnaryExpr unPrec(self.Op)
+// @ ghostdef prec ast.IndexExpr 1
+// @ ghostdef prec ast.SelectorExpr 1
+// @ ghostdef prec ast.InExpr 9
+// @ ghostdef prec ast.IsNullExpr 9
+// @ ghostdef prec ast.IsBoolExpr 9
+// @ ghostdef prec ast.BetweenExpr 9
+
+// parenfree(x): the operands of the operator node x bind at least as tightly as the printer requires,
+// so that paren() adds no parenthesis around them: left operands at most the node's level, right operands
+// strictly below it (left associativity), comparison operands strictly below the comparison level
+// (non-associative), operands of unary operators and of field/subscript access at most that level.
+// @ spec parenfreeBin(b) = isBinOp(b.Op) && prec(b.Left) <= binPrec(b.Op) && prec(b.Right) < binPrec(b.Op) && (binPrec(b.Op) == 9 ==> prec(b.Left) < 9)
+// @ spec parenfree(x) = (typeIs(x, "*ast.BinaryExpr") ==> parenfreeBin(as(x, "*ast.BinaryExpr"))) && (typeIs(x, "*ast.UnaryExpr") ==> isUnOp(as(x, "*ast.UnaryExpr").Op) && prec(as(x, "*ast.UnaryExpr").Expr) <= unPrec(as(x, "*ast.UnaryExpr").Op)) && (typeIs(x, "*ast.IndexExpr") ==> prec(as(x, "*ast.IndexExpr").Expr) <= 1) && (typeIs(x, "*ast.SelectorExpr") ==> prec(as(x, "*ast.SelectorExpr").Expr) <= 1) && (typeIs(x, "*ast.InExpr") ==> prec(as(x, "*ast.InExpr").Left) < 9) && (typeIs(x, "*ast.IsNullExpr") ==> prec(as(x, "*ast.IsNullExpr").Left) < 9) && (typeIs(x, "*ast.IsBoolExpr") ==> prec(as(x, "*ast.IsBoolExpr").Left) < 9) && (typeIs(x, "*ast.BetweenExpr") ==> prec(as(x, "*ast.BetweenExpr").Left) < 9 && prec(as(x, "*ast.BetweenExpr").RightStart) < 9 && prec(as(x, "*ast.BetweenExpr").RightEnd) < 9)
